@@ -789,7 +789,124 @@ def check_C08(ctx):
     return finish_with_proofs(ctx)
 
 
-CHECKS = {'C01': check_C01, 'C02': check_C02, 'C07': check_C07, 'C08': check_C08, 'C10': check_C10, 'C11': check_C11, 'C03': check_C03, 'C04': check_C04, 'C05': check_C05, 'C06': check_C06}
+# ------------------------------------------------------------------ C09 -----
+def is_k3_pair(ta, tb):
+    """a sequence whose elements are an integral type on one side and a NOP_VALUE
+    wrapper of an integral type on the other (BIN vs ARY): finding K3"""
+    def strip(t):
+        while t[0] == 'wrap' and t[1] != 0:
+            t = t[2]
+        return t
+
+    def walk2(a, b):
+        a0, b0 = strip(a), strip(b)
+        if a0[0] == 'seq' and b0[0] == 'seq':
+            ea, eb = a0[2], b0[2]
+            if nopgen.is_integral(ea) != nopgen.is_integral(eb) and nopgen.is_integral(strip(ea)) and nopgen.is_integral(strip(eb)):
+                return True
+            return walk2(ea, eb)
+        if a0[0] == 'tup' and b0[0] == 'tup' and len(a0[2]) == len(b0[2]):
+            return any(walk2(x, y) for x, y in zip(a0[2], b0[2]))
+        for k, idx in (('opt', 1), ('res', 3)):
+            if a0[0] == k and b0[0] == k:
+                return walk2(a0[idx], b0[idx])
+        if a0[0] == 'var' and b0[0] == 'var' and len(a0[1]) == len(b0[1]):
+            return any(walk2(x, y) for x, y in zip(a0[1], b0[1]))
+        if a0[0] == 'map' and b0[0] == 'map':
+            return walk2(a0[2], b0[2]) or walk2(a0[3], b0[3])
+        if a0[0] == 'tab' and b0[0] == 'tab' and len(a0[2]) == len(b0[2]):
+            return any(walk2(x[2], y[2]) for x, y in zip(a0[2], b0[2]))
+        return False
+    return walk2(ta, tb)
+
+
+def check_C09(ctx):
+    proofs_or_violation(ctx, ['Properties_C09.v'])
+    pool = get_pool()
+    n = len(pool.types)
+    lines = ['fungrow T%d' % i for i in range(n)]
+    ho = run_harness(pool, lines)
+    mo = run_driver(pool, lines)
+    M = []
+    broken = []
+    for i, (a, b) in enumerate(zip(ho, mo)):
+        ra = a.split('=')[1] if a.startswith('row=') else None
+        rb = b.split('=')[1] if b.startswith('row=') else None
+        if ra is None or len(ra) != n:
+            ctx.violate('harness-crash', 'IsFungible matrix row missing: ' + a[:200], {'row': i, 'output': a})
+            M.append('0' * n)
+            continue
+        M.append(ra)
+        if rb is not None:
+            for j in range(n):
+                ctx.count('trait', 'IsFungible<T%d,T%d>' % (i, j), nontrivial=(ra[j] == '1' or rb[j] == '1'))
+                if ra[j] != rb[j]:
+                    broken.append({'case': 'IsFungible<%s, %s>' % (type_desc(pool, i), type_desc(pool, j)), 'hraw': ra[j], 'mraw': rb[j]})
+    # reflexive, symmetric (on the implementation's own trait)
+    for i in range(n):
+        if M[i][i] != '1':
+            ctx.violate('not-reflexive', 'IsFungible<A,A> is false for A = ' + type_desc(pool, i), {'type': type_desc(pool, i)})
+        for j in range(i + 1, n):
+            if M[i][j] != M[j][i]:
+                ctx.violate('not-symmetric', 'IsFungible<A,B> = %s but IsFungible<B,A> = %s for A = %s, B = %s' % (M[i][j], M[j][i], type_desc(pool, i), type_desc(pool, j)),
+                            {'A': type_desc(pool, i), 'B': type_desc(pool, j)})
+    # fungible pairs: every encoding of an A value whose counts fit B decodes as B to the
+    # corresponding value, and re-encoding that B value reproduces the bytes
+    pairs = [(i, j) for i in range(n) for j in range(n) if i != j and M[i][j] == '1']
+    S = CodecStreams(ctx, nvals=(10 if ctx.quick else 100), types=sorted({i for i, _ in pairs}))
+    rows = [r for r in S.run_enc() if r['h'] and r['h']['st'] == '0']
+    by = {}
+    for r in rows:
+        by.setdefault(r['tid'], []).append(r)
+    items = []
+    for i, j in pairs:
+        for r in by.get(i, []):
+            items.append((j, r['h']['bytes'], '-', (i, r), None))
+    # does the value fit B?  the model's typing decides (array extents, buffer capacities)
+    fits = run_driver(pool, ['enc T%d %s' % (j, tag[1]['h']['dump']) for (j, hx, hs, tag, p) in items])
+    drows = S.run_dec(items)
+    re = []
+    for d, f in zip(drows, fits):
+        i, r = d['tag']
+        ff = sx.fields(f) if not f.startswith('DRIVER') else {}
+        if ff.get('typed') != 'true':
+            continue          # element counts do not fit B's capacity
+        ctx.count('cross-decode', d['case'], nontrivial=d['h'] is not None)
+        k3 = is_k3_pair(pool.types[i], pool.types[d['tid']])
+        if d['h'] is None:
+            ctx.violate('harness-crash:dec', 'reader crashed: %s -> %s' % (d['case'][:160], d['hraw'][:300]), {'case': d['case'], 'output': d['hraw']})
+            continue
+        ok = d['h'].get('st') == '0' and val_eq(d['h'].get('val'), r['h']['dump']) and d['h'].get('consumed') == str(hexlen(r['h']['bytes']))
+        if not ok:
+            ctx.violate('k3:wrapped-integral-elements' if k3 else 'fungible-not-wire-compatible',
+                        'IsFungible<A,B> is true but an A value does not decode as B: A = %s, B = %s, value %s, bytes %s -> %s'
+                        % (type_desc(pool, i)[:70], type_desc(pool, d['tid'])[:70], r['h']['dump'][:60], r['h']['bytes'][:60], d['hraw'][:100]),
+                        {'A': type_desc(pool, i), 'B': type_desc(pool, d['tid']), 'value': r['h']['dump'], 'bytes': r['h']['bytes'], 'read_as_B': d['hraw']})
+        else:
+            re.append((d['tid'], r))
+    # re-encode as B
+    ro = run_harness(pool, ['enc T%d %s' % (j, r['h']['dump']) for j, r in re])
+    # an unordered_map re-encodes its entries in its own iteration order: for such pairs the
+    # re-encoded bytes are compared as the value they denote (decoded as A) and by length
+    unordered = [('unordered' in pool.caps[j] or 'unordered' in pool.caps[r['tid']]) for j, r in re]
+    back = run_harness(pool, ['dec T%d %s -' % (r['tid'], sx.fields(o).get('bytes', '-')) if u and o.startswith('dump=') else '# skip'
+                              for (j, r), o, u in zip(re, ro, unordered)])
+    for (j, r), o, u, bk in zip(re, ro, unordered, back):
+        ctx.count('re-encode', 'enc T%d %s' % (j, r['h']['dump']))
+        f = sx.fields(o) if not o.startswith(('CRASH', 'HARNESS', 'OOM', 'EXCEPTION')) else {}
+        if u and f.get('bytes') is not None and hexlen(f['bytes']) == hexlen(r['h']['bytes']) and val_eq(sx.fields(bk).get('val'), r['h']['dump']):
+            continue
+        if f.get('bytes') != r['h']['bytes']:
+            k3 = is_k3_pair(pool.types[r['tid']], pool.types[j])
+            ctx.violate('k3:wrapped-integral-elements' if k3 else 'fungible-different-bytes',
+                        'IsFungible<A,B> is true but re-encoding the value as B gives different bytes: A = %s, B = %s, value %s: %s vs %s'
+                        % (type_desc(pool, r['tid'])[:70], type_desc(pool, j)[:70], r['h']['dump'][:60], r['h']['bytes'][:60], str(f.get('bytes'))[:60]),
+                        {'A': type_desc(pool, r['tid']), 'B': type_desc(pool, j), 'value': r['h']['dump']})
+    report_broken(ctx, broken, 'trait', 'IsFungible<A,B>::value = model fungible a b over all ordered pairs of the pool')
+    return finish_with_proofs(ctx, {'pool_types': n, 'ordered_pairs': n * n, 'fungible_pairs': len(pairs)})
+
+
+CHECKS = {'C01': check_C01, 'C02': check_C02, 'C07': check_C07, 'C09': check_C09, 'C08': check_C08, 'C10': check_C10, 'C11': check_C11, 'C03': check_C03, 'C04': check_C04, 'C05': check_C05, 'C06': check_C06}
 
 
 def run(pid, tier, seed, replay=None):
